@@ -58,7 +58,7 @@ def encZoomSection (recs : List ZRec) : Sec :=
     bytes := recs.flatMap fun r => le 4 r.chrom ++ le 4 r.start ++ le 4 r.stop ++ le 4 r.bases ++
       f32 r.mn ++ f32 r.mx ++ f32 r.sum ++ f32 r.sumsq }
 
-/-- zoom records of one chromosome (tiler as found, with sum of squares) -/
+/-- zoom records of one chromosome (the tiler as repaired — D1, D14 — with sum of squares) -/
 structure ZSt where
   live : Option ZRec
   out : List ZRec
@@ -67,12 +67,12 @@ def zoomIter (chrom size : Nat) (x : V) (a : Nat) (st : ZSt) : Nat × ZSt :=
   let r := st.live.getD ⟨chrom, a, a, 0, x.v, x.v, 0, 0⟩
   let nextEnd := r.start + size
   let addEnd := min nextEnd x.e
-  let r' : ZRec := if addEnd ≥ a then
+  let r' : ZRec := if addEnd > a then                 -- repaired (D14): only when bases are added
       { r with stop := addEnd, bases := r.bases + (addEnd - a), sum := r.sum + (addEnd - a : Nat) * x.v,
                sumsq := r.sumsq + (addEnd - a : Nat) * x.v * x.v, mn := min r.mn x.v, mx := max r.mx x.v }
     else r
   let st' : ZSt := if addEnd = nextEnd then ⟨none, st.out ++ [r']⟩ else ⟨some r', st.out⟩
-  (addEnd, st')                                   -- as found: `add_start = add_end`
+  (max addEnd x.s, st')                           -- repaired (D1): never left of the value's start
 
 def zoomInner (chrom size : Nat) (x : V) (isLast : Bool) : Nat → Nat → ZSt → ZSt
   | 0, _, st => st
@@ -218,6 +218,7 @@ def writeBigWig (o : Opts) (input : List (List Nat × Nat × List V)) : List Nat
       let secs := input.zipIdx.flatMap fun (_, id) =>
         let rs := (recs.filter (·.1 = id)).map (·.2)
         cutZoomSections o.itemsPerSlot (rs.length + 1) rs
+      if secs.isEmpty then acc else              -- a level without records is not written (D4 repair)
       let (zl, zend) := leavesOf secs acc.2.2
       let zdata := secs.flatMap (·.bytes)
       let zidx := indexBytes o.blockSize o.itemsPerSlot zl zend
